@@ -111,13 +111,15 @@ Section Inv.
         * cbn [fst snd running log emit]. cnts. lia.
     - pose proof (acquire_eff (CPlain sc) s j) as (A1 & A2 & (A3 & A4) & A5). rewrite A2, A3, A4, A5. cnts. lia.
     - pose proof (acquire_eff (CRun sc f) s j) as (A1 & A2 & (A3 & A4) & A5). rewrite A2, A3, A4, A5. cnts. lia.
-    - destruct f as [v| | |].
+    - destruct f as [v| | | |].
       + pose proof (fn_done_eff HRunning j0 (OK v) s j) as (A1 & A2 & A3 & A4 & A5). rewrite A2, A3, A4, A5.
         cbn [run_drop] in A1. lia.
       + pose proof (fn_done_eff HRunning j0 Boom s j) as (A1 & A2 & A3 & A4 & A5). rewrite A2, A3, A4, A5.
         cbn [run_drop] in A1. lia.
       + cbn [fst snd running log set_pending set_running]. cnts. lia.
       + cbn [fst snd running log set_pending set_running]. cnts. lia.
+      + pose proof (fn_done_eff HRunning j0 BoomBase s j) as (A1 & A2 & A3 & A4 & A5). rewrite A2, A3, A4, A5.
+        cbn [run_drop] in A1. lia.
     - cbn [fst snd running log emit]. cnts. by_cases j0 j; lia.
   Qed.
 
@@ -145,11 +147,12 @@ Section Inv.
     - assert (Hin : In j0 (running s)).
       { apply cnt_In. destruct (HS j0) as (H1 & _). rewrite endfs_cons in H1. cbn [endf_of] in H1.
         rewrite cnt_app, cnt_cons, one_refl in H1. lia. }
-      destruct f as [v| | |].
+      destruct f as [v| | | |].
       + apply (inv_fn_done limit s HRunning); assumption.
       + apply (inv_fn_done limit s HRunning); assumption.
       + apply inv_defer; assumption.
       + apply inv_defer; assumption.
+      + apply (inv_fn_done limit s HRunning); assumption.
     - apply inv_emit_neutral; [exact I | exact HI].
   Qed.
 
